@@ -434,7 +434,7 @@ def _strip_field_attrs(text, keep_default=False):
     return res
 
 
-def assemble(unit_path):
+def assemble(unit_path, canary=None):
     log = Woven()
     with open(unit_path, encoding="utf-8") as f:
         lines = f.read().split("\n")
@@ -448,6 +448,12 @@ def assemble(unit_path):
         else:
             exp.append(ln)
     lines = exp
+    if canary is not None:
+        # a canary replaces one contract clause by a wrong one (after include expansion, so shared preludes count)
+        txt = "\n".join(lines)
+        if canary["find"] not in txt:
+            raise UnitError("canary %s: text to replace not found in unit" % canary["name"])
+        lines = txt.replace(canary["find"], canary["replace"], 1).split("\n")
     out = []
     i = 0
     cur_line = 1
